@@ -130,6 +130,10 @@ Proof.
     step_cases H; inversion H; subst; clear H.
   (* impossible in the calm region *)
   all: try (match goal with E : _ && false && _ = true |- _ => rewrite andb_false_r in E; discriminate E end).
+  all: try (match goal with E : context [startup_may_fire _] |- _ =>
+              rewrite ?Su in E; rewrite ?andb_false_r, ?andb_false_l in E; cbn [andb] in E; discriminate E end).
+  all: try (match goal with E : context [_ && false] |- _ =>
+              rewrite ?andb_false_r, ?andb_false_l in E; cbn [andb] in E; discriminate E end).
   all: try (exfalso; cbn in Cm; exact Cm).
   all: try (exfalso; match goal with E : sigq _ = ?g :: _ |- _ =>
               destruct (Cs g) as [X|X]; [discriminate X|discriminate X|first [now left|rewrite E; now left]] end).
